@@ -256,9 +256,52 @@ class P(Prop):
 
     def search(self, n):
         for i in range(n):
-            self.oracle(self.gen_case())
+            c = self.gen_case()
+            self.oracle(c)
+            if i % 4 == 0:
+                self.requery_after_edit(c)
             if self.too_many():
                 break
+
+    def requery_after_edit(self, c):
+        """the same Circuit object is queried again after its wiring changed through APIs other than connect/disconnect:
+        every answer must describe the graph as it is now (no stale cache)"""
+        rng = self.rng
+        gates = [g for g in c.graph.nodes if c.type(g) in gen.MULTI]
+        if not gates:
+            return
+        kind = rng.choice(["fill", "subcircuit", "relabel", "graph"])
+        try:
+            if kind == "fill":
+                # a blackbox in a feedback path, filled with a buffer: closes a loop
+                g = rng.choice(gates)
+                bb = cg.BlackBox("zb", ["i"], ["o"])
+                w = c.add("zz_w", "buf", uid=True)
+                c.add_blackbox(bb, "zz_u", {"i": g, "o": w})
+                c.connect(w, g)
+                child = cg.Circuit("buf1")
+                child.add("i", "input")
+                child.add("o", "buf", fanin="i", output=True)
+                c.fill_blackbox("zz_u", child)
+            elif kind == "subcircuit":
+                ring = cg.Circuit("ring")
+                ring.add("p", "not")
+                ring.add("q", "not", fanin="p")
+                ring.connect("q", "p")
+                c.add_subcircuit(ring, "zz_r", strip_io=False)
+            elif kind == "relabel":
+                # merge a gate into one of its descendants' names (relabel onto an existing node)
+                g = rng.choice(gates)
+                desc = sorted(c.transitive_fanout(g) & set(gates))
+                if desc:
+                    c.relabel({g: rng.choice(desc)})
+            else:
+                g, h = rng.choice(gates), rng.choice(gates)
+                if g != h:
+                    c.graph.add_edge(g, h)
+        except Exception:  # noqa: BLE001
+            return
+        self.oracle(c)
 
     def replay(self, case):
         self.oracle(c_from_json(case["c"]))
